@@ -532,6 +532,85 @@ def gen_numerals(ctx):
             k = rng.range(1, len(digs) - 1)
             digs = digs[:k] + "." + digs[k:]
         out.append(("dec-mantissa-bin-exponent", "%sp%d" % (digs, rng.range(-20, 20))))
+    # 12. boundary strata for every multi-word arithmetic step of the repaired fast path
+    out += gen_arith_boundaries(ctx)
+    return out
+
+
+def gen_arith_boundaries(ctx):
+    """Deterministic witnesses around each integer step of exactPow10 / the base-2 exactness test:
+       * wrap witnesses: odd w <= 2^53, k in 5..22 with w * 5^k >= 2^64 but (w * 5^k mod 2^64) <= 2^53
+         (a 64-bit product would call them exact), built as w = r * (5^k)^-1 mod 2^64 for odd r <= 2^53,
+         also with trailing zero bits added to w, and the near misses r just above 2^53;
+       * products w * 5^k at 2^53 and 2^64 (largest below, smallest above), with trailing zero bits;
+       * negative exponents: w = q * 5^k exactly and off by one, q up to 2^53 / 5^k;
+       * base 2: exp + trailing zeros at -1074 / -1075, and 2^1024 overflow."""
+    rng = ctx.rng
+    out = []
+    tries = ctx.budget(24000, 400000)
+    keep = ctx.budget(6, 60)
+    for k in range(1, 23):
+        p = 5 ** k
+        pinv = pow(p, -1, P64)
+        # -- wrap witnesses (exist only when 2^53 * 5^k >= 2^64, i.e. k >= 5)
+        if P53 * p >= P64:
+            got = 0
+            r = rng.range(0, (P53 - 2 * tries) // 2) * 2 + 1
+            for _ in range(tries):
+                w = (r * pinv) & (P64 - 1)
+                if w <= P53 and w * p >= P64:
+                    out.append(("wrap-witness", "%de%d" % (w, k)))
+                    t = 53 - w.bit_length()
+                    if t > 0:
+                        out.append(("wrap-witness", "%de%d" % (w << rng.range(1, t), k)))
+                    if got % 3 == 0:
+                        d = str(w)
+                        out.append(("wrap-witness", "%s%s.%se%d" % ("-" if got % 2 else "", d[0], d[1:], k + len(d) - 1)))
+                    got += 1
+                    if got >= keep:
+                        break
+                r += 2
+            # near misses: the low 64 bits are just above 2^53 (not exact in any arithmetic)
+            got = 0
+            r = P53 + 1 + 2 * rng.range(0, 1 << 30)
+            for _ in range(tries):
+                w = (r * pinv) & (P64 - 1)
+                if w <= P53 and w * p >= P64:
+                    out.append(("wrap-near-miss", "%de%d" % (w, k)))
+                    got += 1
+                    if got >= max(2, keep // 3):
+                        break
+                r += 2
+        # -- products at the 2^53 and 2^64 boundaries
+        for lim in (P53, P64):
+            q = lim // p
+            for w in (q - 2, q - 1, q, q + 1, q + 2):
+                if 1 <= w <= P53:
+                    out.append(("product-boundary", "%de%d" % (w, k)))
+                    odd = w >> ((w & -w).bit_length() - 1)
+                    t = 53 - odd.bit_length()
+                    if t > 0:
+                        out.append(("product-boundary", "%de%d" % (odd << rng.range(1, t), k)))
+        # -- divisibility by 5^k, exactly and off by one
+        qmax = P53 // p
+        for q in {1, 2, 3, qmax, qmax - 1, max(1, qmax // 2), rng.range(1, qmax), rng.range(1, qmax)}:
+            if q < 1:
+                continue
+            for w in (q * p - 1, q * p, q * p + 1):
+                if 1 <= w <= P53:
+                    out.append(("divisibility-boundary", "%de-%d" % (w, k)))
+        out.append(("divisibility-boundary", "%de-%d" % (P53, k)))
+        out.append(("divisibility-boundary", "%de-%d" % ((qmax + 1) * p, k)))       # just above 2^53: strconv branch
+    # -- base 2: exponent plus trailing zeros at the subnormal limit; overflow limit
+    for _ in range(ctx.budget(60, 1000)):
+        m = rng.range(1, P53) | 1
+        if rng.chance(1, 3):
+            m = rng.range(1, 255) | 1
+        t = rng.range(0, 53 - m.bit_length())
+        for e in (-1073, -1074, -1075, -1076):
+            out.append(("base2-boundary", "0x%xp%d" % (m << t, e - t)))
+        out.append(("base2-boundary", "0x%xp%d" % (m << t, 1024 - (m.bit_length() + t))))
+        out.append(("base2-boundary", "0x%xp%d" % (m << t, 1023 - (m.bit_length() + t))))
     return out
 
 
@@ -565,7 +644,9 @@ def run(ctx):
     ctx.rule = ("numeral texts in strata: corpus; every mantissa 1..59 x exponent -40..40; short (1-16 digit) mantissas in 6 spellings; "
                 "values around the 2^53 / 2^64 guards; 17-40 digit mantissas; exponents -345..312; extreme exponents up to 2e9; "
                 "halfway points m*2^e + ulp/2 (exact, just above, just below, representable neighbour) in decimal and hex, normal and subnormal; "
-                "subnormal range; overflow boundary; hex floats (1-30 hex digits, with/without dot and p exponent); decimal mantissa with p exponent. "
+                "subnormal range; overflow boundary; hex floats (1-30 hex digits, with/without dot and p exponent); decimal mantissa with p exponent; "
+                "arithmetic boundaries of the repaired fast path: 64-bit wrap witnesses w*5^k >= 2^64 with low word <= 2^53 (k = 5..22, built by modular inverse) and near misses, "
+                "products at 2^53 / 2^64, w = q*5^k exactly and off by one, base-2 exponent + trailing zeros at -1074/-1075 and at the overflow limit. "
                 "distinct = distinct numeral text; non-trivial = non-zero mantissa")
     import time as _t
     t0 = _t.time()
@@ -698,7 +779,8 @@ def run(ctx):
                 meta.append(({"table": name, "index": k}, {"bits": b}))
 
     # in-Coq evaluation: everything from the small strata, a budgeted sample of the large ones
-    small = {"corpus", "tables", "pow5", "fields", "guards", "overflow", "dec-mantissa-bin-exponent"}
+    small = {"corpus", "tables", "pow5", "fields", "guards", "overflow", "dec-mantissa-bin-exponent",
+             "wrap-witness", "wrap-near-miss", "product-boundary", "divisibility-boundary", "base2-boundary"}
     # (a case with a mantissa of several hundred digits costs about a second in coqc: those are capped)
     heavy = [k for k, t in enumerate(terms) if t[2] > 100]
     heavy = rng.shuffle(heavy)[:ctx.budget(COQ_HEAVY_QUICK, COQ_HEAVY_THOROUGH)]
